@@ -237,6 +237,11 @@ SET_CREATE = [
     ("s: !!set {? x, ? y}\nk: v\n", "s.z", {"s": {"x", "y", "z"}, "k": "v"}),
     ("a:\n  s: !!set {? x}\n", "/a/s/z", {"a": {"s": {"x", "z"}}}),
     ("s: !!set {}\nk: v\n", "/s/z", {"s": {"z"}, "k": "v"}),
+    # a tail which goes on beneath the member cannot be created (members are
+    # scalars): refused, and every node that existed is unchanged
+    ("s: !!set {? x, ? y}\nk: v\n", "/s/z/w", None),
+    ("s: !!set {? x, ? y}\nk: v\n", "s.x.w", None),
+    ("a:\n  s: !!set {? x}\n", "/a/s/z[0]", None),
 ]
 
 
@@ -305,6 +310,14 @@ def set_member_family(st):
                 "segs": None, "value": "z"}
         res, detail = editrun.apply_set(doc, ptext, "z", mustexist=False)
         st.outcomes["create:" + res] += 1
+        if want is None:
+            st.states += 1
+            if res != "ype" or _plain(doc) != _plain(corpus.load(text)):
+                st.fail("create|beneath-set-member|%s" % (
+                    "not-refused" if res != "ype" else "changed"), case,
+                    "a YAML Path error and the document unchanged",
+                    "%s %s: %r" % (res, detail, _plain(doc)))
+            continue
         if res != "ok":
             st.fail("create|set-member|%s:%s" % (res, detail), case,
                     repr(want), "%s %s" % (res, detail))
